@@ -18,14 +18,14 @@ def obs(c, passes_aside=False):
         a = [x.replace('-', '') for x in a]
         while a and a[-1] == '': a.pop()
         return tuple(a)
-    return (c.state, tuple(int(h * 100) for h in c.heights),
-            tuple(sorted((j.bib, j.place, int(j.highest_cleared * 100), norm(j.attempts_by_height)) for j in c.jumpers)))
+    return (c.state, tuple(int(round(h * 100)) for h in c.heights),
+            tuple(sorted((j.bib, j.place, int(round(j.highest_cleared * 100)), norm(j.attempts_by_height)) for j in c.jumpers)))
 
 def accepted_ops(c):
     ops = []
     for a, v in c.actions:
         if a == 'add_jumper': ops.append(('add', int(v['bib'])))
-        elif a == 'set_bar_height': ops.append(('bar', int(v * 100)))
+        elif a == 'set_bar_height': ops.append(('bar', int(round(v * 100))))
         else: ops.append(('trial', int(v), {'cleared': 'o', 'failed': 'x', 'passed': 'p', 'retired': 'r'}[a]))
     return ops
 
@@ -78,11 +78,12 @@ def run(ctx):
             c = H.new_comp(athlib)
             for op in ops[:cut]: H.apply_op(athlib, c, op)
         else:
-            c = H.new_comp(athlib); nb = rng.randint(2, 4); h = 100
+            fl = (i % 6 == 1)                         # bar heights as Python floats, from anywhere between 1.00 and 2.60
+            c = H.new_comp(athlib, float_heights=fl); nb = rng.randint(2, 4); h = rng.randint(100, 260) if fl else 100
             for b in range(1, nb + 1): H.apply_op(athlib, c, ('add', b))
             for k in range(rng.randint(3, 50)):
                 x = rng.random()
-                if x < 0.2: op = ('bar', h + rng.choice([3, 2, 5, 0, -2]))
+                if x < 0.2: op = ('bar', h + rng.choice([3, 2, 5, 1, 1, 0, -2]))
                 else: op = ('trial', rng.randint(1, nb), rng.choice('oxxxpr'))
                 if H.apply_op(athlib, c, op) == 'ok' and op[0] == 'bar': h = op[1]
         hist = accepted_ops(c)
@@ -91,9 +92,20 @@ def run(ctx):
             ctx.fail('HighJumpCompetition', H.fmt_ops(ops_), expected, got, note=note, replay_py=H.replay_py(ops_))
         # 1. action-log replay
         try:
+            before = H.snap(c)
             c2 = c.from_actions()
             if H.snap(c2) != H.snap(c):
                 fail('from_actions() reproduces ' + H.snap(c), H.snap(c2), 'log replay differs')
+            elif i % 3 == 0:
+                # the copy is a competition of its own: going on with it must not reach back into the original
+                hh = int(round(c2.heights[-1] * 100)) if c2.heights else 100
+                for op in (('bar', hh + 3), ('trial', 1, 'x'), ('trial', 2, 'o')):
+                    H.apply_op(athlib, c2, op)
+                if H.snap(c) != before:
+                    fail('the original is untouched by calls on the competition rebuilt from its log: ' + before, H.snap(c), 'log replay shares state with the original')
+                c2 = c.from_actions()
+                if H.snap(c2) != before:
+                    fail('from_actions() reproduces ' + before + ' (second replay)', H.snap(c2), 'second log replay differs')
         except Exception as e:
             fail('from_actions() reproduces ' + H.snap(c), '%s: %s' % (type(e).__name__, e), 'log replay raised')
         # 2. card export / import
